@@ -22,7 +22,7 @@ META = {
     "bounds": {"quick": "t=2 tasks, rank 1; grids of 5-7 points, d<=2 (sizes 5x6); interior, first and last cells; SGPR n=2, M<=2, m=1",
                "thorough": "more cells, grid sizes, SGPR M=2 with/without diagonal correction"},
     "outside": ["the interpolated kernel converges to the base kernel as the grid is refined (asymptotic, analytic)",
-                "Toeplitz / FFT path (use_toeplitz(True))", "CG-selected paths", "RFF kernel and prediction strategy (random features)",
+                "Toeplitz / FFT path (use_toeplitz(True))", "CG-selected paths", "RFF predictive covariance (Cholesky of a matrix of trigonometric polynomials); that the random features approximate the RBF kernel (probabilistic)",
                 "KISS-GP (InterpolatedPredictionStrategy): the predictive COVARIANCE for training inputs strictly inside grid cells (decided "
                 "only for training inputs at grid nodes; the mean is decided for both), and the WISKI fantasy update (SVD inside "
                 "add_low_rank, nested square roots)", "rounding"],
@@ -240,16 +240,24 @@ def kiss_model(S, fantasy, fpv, mean="constant", G=6, nodes=(), fnode=None, symx
         Ksym = Gs @ Gs.T
         table = (Gc @ Gc.T).contiguous()
         xtr = torch.tensor([[float(grid[G // 2 - 1]) + 0.25 * h], [float(grid[G // 2]) + 0.5 * h]])
-        if symx:
-            S.sym_tensor(xtr, "x")
     S.put(table, Ksym)
     gk = K.GridInterpolationKernel(GridStubKernel(grid, table), grid_size=G, num_dims=1, grid_bounds=gbounds)
     gk.update_grid([grid.clone()])
     xte = torch.tensor([[float(grid[G // 2 - 1]) + 0.75 * h]])
-    if symx:
-        S.sym_tensor(xte, "z")
     xf = grid[[fnode]].clone().reshape(1, 1) if (fantasy and fnode is not None) else torch.tensor([[float(grid[G // 2]) + 0.125 * h]])[:f]
     xall = torch.cat([xtr, xf, xte], 0)
+    if symx:
+        # symbolic inputs inside their grid cells: the test input always, the training inputs when they are not on nodes
+        XA = as_sym_arr(xall.numpy()).copy()
+        rows = list(range(n + f, n + f + m)) + ([] if nodes else list(range(n)))
+        from symten import atom
+        for r_ in rows:
+            nm = "x_%d" % r_
+            if nm in S.overrides:
+                xall[r_, 0] = S.overrides[nm]
+            S.witness[nm] = float(xall[r_, 0])
+            XA[r_, 0] = atom(nm, float(xall[r_, 0]))
+        S.put(xall, XA)
     x, xs = xall[:n], xall[n + f:]
     y = S.randn(n + f); Y = S.sym_tensor(y, "y")
 
@@ -293,6 +301,64 @@ def kiss_model(S, fantasy, fpv, mean="constant", G=6, nodes=(), fnode=None, symx
         Mref, Cref = cond(n + f)
         S.prove_eq(mf, Mref, "KISS-GP fantasy mean = dense conditional on train + fantasy data")
         S.prove_eq(cf, Cref, "KISS-GP fantasy covariance = dense conditional on train + fantasy data")
+
+
+def rff(S, what, n1=2, n2=3, d=2, D=2):
+    """RFFKernel: K(x1,x2) = (1/D) sum_j [cos(x1.w_j/l) cos(x2.w_j/l) + sin(x1.w_j/l) sin(x2.w_j/l)] for the STORED random weights
+       (symbolic buffer), also on the x2-is-x1 root path and diag; RFFPredictionStrategy = dense conditional on that kernel"""
+    from symten import sym_cos, sym_sin
+    k = K.RFFKernel(num_samples=D, num_dims=d)
+    for p in k.parameters():
+        p.requires_grad_(False)
+    declare_params(S, k, "p_", scale=0.3)
+    W = S.sym_tensor(k.randn_weights, "w")
+    def ref(X1, X2, ls):
+        R = np.empty((X1.shape[0], X2.shape[0]), dtype=object)
+        def ang(a, j):
+            return sum(((a[i] * (W[i, j] / ls)) for i in range(d)), Sym.const(0.0))
+        for i in range(X1.shape[0]):
+            for c in range(X2.shape[0]):
+                tot = Sym.const(0.0)
+                for j in range(D):
+                    u, v = ang(X1[i], j), ang(X2[c], j)
+                    tot = tot + sym_cos(u) * sym_cos(v) + sym_sin(u) * sym_sin(v)
+                R[i, c] = tot / Sym.const(float(D))
+        return R
+    if what == "kernel":
+        x1 = S.randn(n1, d, scale=0.6); X1 = S.sym_tensor(x1, "x")
+        x2 = S.randn(n2, d, scale=0.6); X2 = S.sym_tensor(x2, "z")
+        with S.mode():
+            ls = as_sym_arr(SH.get(k.lengthscale)).reshape(-1)[0]
+            cross = dense(k(x1, x2))
+            same = dense(k(x1, x1))
+            dg = k(x2, x2, diag=True)
+        S.prove_eq(cross, ref(X1, X2, ls), "RFF K(x1,x2) = feature inner products / D")
+        S.prove_eq(same, ref(X1, X1, ls), "RFF K(x,x) (root path)")
+        S.prove_eq(dg, np.diagonal(ref(X2, X2, ls)), "RFF diag")
+        return
+    n, m = 2, 1
+    x = S.randn(n, d, scale=0.6); S.sym_tensor(x, "x")
+    xs = S.randn(m, d, scale=0.6); S.sym_tensor(xs, "z")
+    y = S.randn(n); Y = S.sym_tensor(y, "y")
+    lik = gpytorch.likelihoods.GaussianLikelihood()
+    model = StubGP(x, y, lik, k, make_mean("constant"))
+    declare_params(S, model.mean_module, "mean_", scale=0.5)
+    declare_params(S, lik, "lik_", scale=0.3)
+    for p in model.parameters():
+        p.requires_grad_(False)
+    model.eval(); lik.eval()
+    with S.mode():
+        xall = torch.cat([x, xs], 0)
+        Kall = as_sym_arr(SH.get(dense(k(xall, xall)))).copy()
+        c = as_sym_arr(SH.get(model.mean_module.constant)).reshape(-1)[0]
+        sig = as_sym_arr(SH.get(lik.noise)).reshape(-1)[0]
+        out = model(xs)
+        mean_t = out.mean
+    A = Kall[:n, :n] + eye(n) * sig
+    Ksx = Kall[n:, :n]
+    sol = gauss_inverse_solve(A, np.concatenate([(Y - c).reshape(n, 1), Ksx.T], axis=1))
+    S.prove_eq(mean_t, (Ksx @ sol[:, :1]).reshape(-1) + c, "RFF model mean = dense conditional on the feature kernel")
+    # (the covariance goes through chol(I - R^T (K + s I)^-1 R): nested square roots of trigonometric polynomials, not decided)
 
 
 def sgpr(S, n, M, m, diag_corr, what):
@@ -391,17 +457,20 @@ def scenarios(tier, seed):
     add("sgpr", n=2, M=1, m=1, diag_corr=False, what="objective")
     add("sgpr", n=2, M=1, m=1, diag_corr=False, what="predict")
     add("sgpr", n=2, M=1, m=1, diag_corr=True, what="predict")
+    add("rff", what="kernel")
+    add("rff", what="predict", d=1, D=1)
     add("kiss_model", fantasy=False, fpv=False)
     add("kiss_model", fantasy=False, fpv=False, nodes=[2, 3])
     add("kiss_model", fantasy=False, fpv=True, nodes=[2, 3])
     add("kiss_model", fantasy=False, fpv=False, nodes=[3, 1])
+    add("kiss_model", fantasy=False, fpv=True, nodes=[1, 2], symx=True)
     # WISKI fantasy update (kiss_model(fantasy=True)) is implemented above but NOT registered: add_low_rank takes an SVD
     # (only decomposable here when its argument is constant on the path) and the updated caches need the Cholesky factor of
     # a 4x4 matrix of long polynomials (nested square roots: z3's simplifier does not finish); declared outside the claim.
     if tier == "thorough":
         add("kiss_model", fantasy=False, fpv=False, nodes=[1, 4, 2], G=7)
         add("kiss_model", fantasy=False, fpv=True, nodes=[4, 0], mean="zero")
-        add("kiss_model", fantasy=False, fpv=False, symx=True)
+        add("kiss_model", fantasy=False, fpv=False, nodes=[2, 3], symx=True)
         add("interpolation", sizes=[5, 6, 5], cell="interior")
         add("kiss_kernel", sizes=[5, 6, 5], ard=True)
         add("sgpr", n=2, M=2, m=1, diag_corr=False, what="objective")
